@@ -367,7 +367,315 @@ class G_Copy(TG):
     def post(self, ctx, inp):
         nonlist_educe(ctx, inp, 'Copy')
 
-GENS = {'PartialEq': G_PartialEq(), 'Eq': G_Eq(), 'Hash': G_Hash(), 'Clone': G_Clone(), 'Copy': G_Copy()}
+# ---- Debug
+DBG_NAMES = ['Hi', 'Name2', 'r#type', '_n', 'x', 'A', 'f', 'builder', 'r#Box']
+DBG_PATHKW = ['Self', 'self', 'crate', 'super']      # identifiers only the `= Ident` form accepts
+
+def dbg_reach(ctx, *t):
+    ctx.notes.setdefault('reach', []).append(t)
+
+def dbg_name_forms(sp, value, quoted=True):
+    """`name` / `rename` parameter carrying an identifier or a boolean, every documented spelling"""
+    kw = pick(sp, ['name', 'name', 'rename'])
+    o, c = pick(sp, ['()', '()', '()', '()', '[]', '{}'])
+    forms = ['%s = %s' % (kw, value), '%s%s%s%s' % (kw, o, value, c)]
+    if quoted:
+        forms += ['%s = "%s"' % (kw, value), '%s%s"%s"%s' % (kw, o, value, c)]
+    i = sp.randrange(len(forms))
+    return forms[i], '%s:%s' % (kw, ['nv', 'list' + ('' if o == '(' else o), 'nv_str', 'list_str' + ('' if o == '(' else o)][i])
+
+def dbg_delim(ctx, text):
+    """spelling: `Debug(...)` may be written `Debug[...]` / `Debug{...}`"""
+    if text is None or not (text.startswith('Debug(') and text.endswith(')')):
+        return text
+    if ctx.sp.random() < 0.93:
+        return text
+    o, c = pick(ctx.sp, ['[]', '{}'])
+    dbg_reach(ctx, 'any', 'delimiter', o)
+    return 'Debug' + o + text[6:-1] + c
+
+DBG_TYPE_FAULTS = {
+    # name: (texts, where it applies: s=struct e=enum u=union v=variant)
+    'name_str_kw':   (['name = "Self"', 'name("struct")', 'rename = "crate"', 'name("_")'], 'seuv'),
+    'short_str_kw':  (['= "type"', '= "self"', '= ""', '= "a b"', '= "1"'], 'sev'),
+    'name_kw':       (['name(struct)', 'name = type', 'name(Self)', 'name(_)', 'name = fn', 'name = mut', 'name = try', 'name(try)', 'name = _'], 'seuv'),
+    'short_bad':     (['= 1', '= type', '= true', "= 'c'", '= a::b', '= -1', '= x()', '= try', '= _'], 'sev'),
+    'name_bad_lit':  (['name = 1', 'name(1)', "name = 'c'", 'name(b"x")', 'name = "a b"', 'name = "1"',
+                       'name(x y)', 'name(x, y)', 'name(-1)', 'name = -1', 'name = a::b', 'name(a::b)',
+                       'name()', 'name("x" y)', 'name(true false)', 'name = "a-b"'], 'seuv'),
+    'name_lit_then_ident': (['name(1 x)', 'name(-1 y)', "name('c' z)", 'name(1.5 w)', 'name(b"q" k)'], 'seuv'),
+    'name_flag':     (['name', 'rename'], 'seuv'),
+    'named_field_bad': (['named_field', 'named_field = 1', 'named_field("true")', 'named_field(yes)',
+                         'named_field = "true"', 'named_field()', 'named_field(true, false)',
+                         'named_field = yes'], 'sv'),
+    'named_field_off': (['named_field = true', 'named_field(false)', 'named_field'], 'eu'),
+    'bound_off':     (['bound(*)', 'bound = false', 'bound'], 'uv'),
+    'bound_bad':     (['bound', 'bound = 1', 'bound(T)', 'bound = "T"', 'bound(* ,)'], 'se'),
+    'dup_name':      (['name = A, rename = B', 'name(A), name(A)', 'rename = false, name = true'], 'seuv'),
+    'dup_name_bad':  (['name = A, name = 1', 'name = 1, name = A', 'name = A, name'], 'seuv'),
+    'dup_named_field': (['named_field = true, named_field(false)', 'named_field = true, named_field = 1'], 'sv'),
+    'dup_bound':     (['bound(*), bound = false', 'bound = false, bound'], 'se'),
+    'unknown_param': (['foo', 'ignore', 'method(m)', 'a::name = x', 'Name = x', 'unsafe_'], 'seuv'),
+    'unsafe_misuse': (['unsafe', 'unsafe, name = A', 'name = A, unsafe'], 'sev'),
+}
+DBG_UNION_FAULTS = ['no_unsafe', 'unsafe_late', 'unsafe_nocomma', 'unsafe_twice', 'short']
+
+DBG_FIELD_FAULTS = {
+    'flag':        ['Debug'],
+    'short_bad':   ['Debug = 1', 'Debug = "a b"', 'Debug = type', "Debug = 'c'", 'Debug = a::b', 'Debug = -1',
+                    'Debug = "struct"'],
+    'name_bad':    ['Debug(name = false)', 'Debug(name)', 'Debug(name(true))', 'Debug(name = 1)', 'Debug(name(1 x))',
+                    'Debug(name = "")', 'Debug(name(""))', 'Debug(name("a" b))', 'Debug(name(a b))', 'Debug(name = a::b)',
+                    'Debug(name(struct))', 'Debug(name = Self)', 'Debug(name(Self))', 'Debug(rename = "Self")', 'Debug(name())'],
+    'ignore_bad':  ['Debug(ignore = 1)', 'Debug(ignore(x))', 'Debug(ignore = "true")', 'Debug(ignore())', 'Debug(ignore(true false))'],
+    'method_bad':  ['Debug(method)', 'Debug(method = 1)', 'Debug(method(a b))', 'Debug(method = "a b")', 'Debug(method())',
+                    'Debug(method(""))', 'Debug(method = false)'],
+    'dup':         ['Debug(name = a, rename = b)', 'Debug(ignore, ignore)', 'Debug(method(a), method(b))',
+                    'Debug(ignore, ignore = 1)', 'Debug(method(a), method = 1)', 'Debug(name = a, name)'],
+    'unknown':     ['Debug(skip)', 'Debug(named_field = true)', 'Debug(bound(*))', 'Debug(a::ignore)', 'Debug(unsafe)'],
+    'dup_trait':   ['Debug(ignore), Debug = false', 'Debug = a, Debug = a'],
+}
+
+class G_Debug(TG):
+    name = 'Debug'
+
+    def _name(self, ctx, level, weights):
+        """weights: (default, custom, false, true, pathkw) -> (mode, value) decided by the request stream"""
+        r = ctx.rng
+        c = r.random()
+        acc = 0.0
+        for mode, w in zip(['default', 'custom', 'false', 'true', 'pathkw'], weights):
+            acc += w
+            if c < acc:
+                break
+        if mode == 'custom':
+            return mode, pick(r, DBG_NAMES)
+        if mode == 'pathkw':
+            return mode, pick(r, DBG_PATHKW)
+        return mode, {'default': None, 'false': 'false', 'true': 'true'}[mode]
+
+    def _assemble(self, ctx, level, mode, value, extra, allow_short, lead=None):
+        """spelling of a type / variant level meta. lead = 'unsafe' for unions."""
+        sp = ctx.sp
+        extra = [e for e in extra if e is not None]
+        if mode in ('custom', 'pathkw') and not extra and allow_short and lead is None and sp.random() < 0.4:
+            if mode == 'custom' and sp.random() < 0.4:
+                dbg_reach(ctx, level, 'name=' + mode, 'short_str')
+                return 'Debug = "%s"' % value
+            dbg_reach(ctx, level, 'name=' + mode, 'short')
+            return 'Debug = %s' % value
+        params = list(extra)
+        if mode == 'custom':
+            t, form = dbg_name_forms(sp, value)
+            params.append(t); dbg_reach(ctx, level, 'name=custom', form)
+        elif mode == 'pathkw':
+            kw = pick(sp, ['name', 'rename'])
+            params.append('%s = %s' % (kw, value)); dbg_reach(ctx, level, 'name=pathkw', kw + ':nv')
+        elif mode == 'true':
+            t, form = dbg_name_forms(sp, 'true', quoted=False)
+            params.append(t); dbg_reach(ctx, level, 'name=true', form)
+        elif mode == 'false':
+            kw = pick(sp, ['name', 'name', 'rename'])
+            forms = ['%s = false' % kw, '%s(false)' % kw, '%s = ""' % kw, '%s("")' % kw]
+            i = sp.randrange(4)
+            params.append(forms[i]); dbg_reach(ctx, level, 'name=false', kw + ':' + ['nv', 'list', 'nv_empty', 'list_empty'][i])
+        else:
+            dbg_reach(ctx, level, 'name=default', '-')
+        if lead is not None:
+            sp.shuffle(params)
+            s = ', '.join([lead] + params)
+            if sp.random() < 0.15:
+                s += ','
+            return 'Debug(%s)' % s
+        if not params:
+            form = 'Debug' if (level.startswith('variant') or sp.random() < 0.8) else 'Debug()'
+            if level.startswith('variant'):
+                return None if sp.random() < 0.8 else 'Debug()'
+            return form
+        return 'Debug(%s)' % join_params(sp, params)
+
+    def _nf(self, ctx, level):
+        r, sp = ctx.rng, ctx.sp
+        c = r.random()
+        if c < 0.6:
+            dbg_reach(ctx, level, 'named_field=default', '-')
+            return None, None
+        v = c < 0.8
+        i = sp.randrange(2)
+        dbg_reach(ctx, level, 'named_field=%s' % v, ['nv', 'list'][i])
+        b = 'true' if v else 'false'
+        return v, ['named_field = %s' % b, 'named_field(%s)' % b][i]
+
+    def _fault(self, ctx, where, p=0.2):
+        """own invalid constructs at type / variant level; returns text or None"""
+        r = ctx.rng
+        if not ctx.want_fault or ctx.fault is not None or r.random() > p:
+            return None
+        code = {'struct': 's', 'enum': 'e', 'union': 'u', 'variant': 'v'}[where]
+        kinds = sorted(k for k, (_, w) in DBG_TYPE_FAULTS.items() if code in w)
+        k = pick(r, kinds)
+        t = pick(r, DBG_TYPE_FAULTS[k][0])
+        ctx.fault = 'dbg:%s@%s' % (k, where)
+        dbg_reach(ctx, where, 'fault:' + k, t)
+        lead = 'unsafe, ' if where == 'union' else ''
+        if t.startswith('='):
+            return 'Debug ' + t
+        return 'Debug(%s%s)' % (lead, t)
+
+    def type_meta(self, ctx):
+        return dbg_delim(ctx, self._type_meta(ctx))
+    def variant_meta(self, ctx, variant):
+        return dbg_delim(ctx, self._variant_meta(ctx, variant))
+    def field_meta(self, ctx, field):
+        return dbg_delim(ctx, self._field_meta(ctx, field))
+
+    def _type_meta(self, ctx):
+        r, sp = ctx.rng, ctx.sp
+        kind = ctx.kind
+        ctx.notes['nf_req'] = None
+        f = self._fault(ctx, kind)
+        if f is not None:
+            return f
+        if kind == 'union':
+            if ctx.want_fault and ctx.fault is None and r.random() < 0.25:
+                k = pick(r, DBG_UNION_FAULTS)
+                ctx.fault = 'dbg:union_%s' % k
+                t = {'no_unsafe': pick(r, ['Debug', 'Debug()', 'Debug(name = A)', 'Debug(name(false))', 'Debug(name = 1)']),
+                     'unsafe_late': pick(r, ['Debug(name = A, unsafe)', 'Debug(name = false, unsafe,)']),
+                     'unsafe_nocomma': pick(r, ['Debug(unsafe name = A)', 'Debug(unsafe unsafe)']),
+                     'unsafe_twice': 'Debug(unsafe, unsafe)',
+                     'short': pick(r, ['Debug = A', 'Debug = "A"', 'Debug = 1', 'Debug = false'])}[k]
+                dbg_reach(ctx, 'union', 'fault:' + k, t)
+                return t
+            mode, value = self._name(ctx, 'union', (0.45, 0.3, 0.17, 0.06, 0.02))
+            return self._assemble(ctx, 'union', mode, value, [], False, lead='unsafe')
+        if kind == 'struct':
+            mode, value = self._name(ctx, 'struct', (0.5, 0.25, 0.15, 0.08, 0.02))
+            nf, nft = self._nf(ctx, 'struct')
+            ctx.notes['nf_req'] = nf
+        else:
+            mode, value = self._name(ctx, 'enum', (0.45, 0.25, 0.08, 0.2, 0.02))
+            nft = None
+        bmode, b = gen_bound(ctx)
+        dbg_reach(ctx, kind, 'bound=' + bmode, (b or '-').split('(')[0].split(' =')[0] + ('(' if b and '(' in b else '=' if b else ''))
+        return self._assemble(ctx, kind, mode, value, [nft, b], True)
+
+    def _variant_meta(self, ctx, variant):
+        ctx.notes['v_nf_req'] = None
+        level = 'variant_' + variant.kind
+        f = self._fault(ctx, 'variant', p=0.1)
+        if f is not None:
+            return f
+        mode, value = self._name(ctx, level, (0.5, 0.25, 0.17, 0.06, 0.02))
+        nf, nft = self._nf(ctx, level)
+        ctx.notes['v_nf_req'] = nf
+        return self._assemble(ctx, level, mode, value, [nft], True)
+
+    def _field_meta(self, ctx, field):
+        r, sp = ctx.rng, ctx.sp
+        if ctx.kind == 'union':
+            if ctx.want_fault and ctx.fault is None and r.random() < 0.15:
+                t = pick(r, ['Debug', 'Debug = false', 'Debug(ignore)', 'Debug = x', 'Debug(name = x)', 'Debug(method(m))', 'Debug(foo)'])
+                ctx.fault = 'dbg:union_field'
+                dbg_reach(ctx, 'union_field', 'fault', t)
+                return t
+            if r.random() < 0.05:
+                dbg_reach(ctx, 'union_field', 'empty_list', 'Debug()')
+                return 'Debug()'
+            return None
+        if field.variant is not None:
+            req = ctx.notes.get('v_nf_req')
+            level = 'field@variant_' + field.variant.kind
+        else:
+            req = ctx.notes.get('nf_req')
+            level = 'field@struct_' + ('named' if field.named else 'unnamed')
+        eff_named = field.named if req is None else req
+        level += ':as_named' if eff_named else ':as_tuple'
+        if ctx.want_fault and ctx.fault is None and r.random() < 0.06:
+            k = pick(r, sorted(DBG_FIELD_FAULTS))
+            t = pick(r, DBG_FIELD_FAULTS[k])
+            ctx.fault = 'dbg:field_%s' % k
+            dbg_reach(ctx, level, 'fault:' + k, t)
+            return t
+        c = r.random()
+        fname = pick(r, DBG_NAMES + ['key', '_0', 'r#fn'])
+        m = pick(r, METHOD_PATHS + ['fmt', '::core::fmt::Display::fmt'])
+        igb = r.random() < 0.5
+        name_here = eff_named or (ctx.want_fault and ctx.fault is None and r.random() < 0.3)
+        if c < 0.35:
+            dbg_reach(ctx, level, 'none', '-')
+            return None
+        if c < 0.40:
+            i = sp.randrange(3)
+            dbg_reach(ctx, level, 'ignore=false', ['short', 'nv', 'list'][i])
+            return ['Debug = true', 'Debug(ignore = false)', 'Debug(ignore(false))'][i]
+        if c < 0.55:
+            i = sp.randrange(4)
+            dbg_reach(ctx, level, 'ignore', ['short', 'flag', 'nv', 'list'][i])
+            return ['Debug = false', 'Debug(ignore)', 'Debug(ignore = true)', 'Debug(ignore(true))'][i]
+        if c < 0.58:
+            # `Debug = ""`: means "ignore" when names are enabled, a syn error otherwise
+            if not eff_named and ctx.fault is None:
+                ctx.fault = 'dbg:field_empty_str_tuple'
+            dbg_reach(ctx, level, 'ignore_empty_str', 'short')
+            return 'Debug = ""'
+        if c < 0.78:
+            if not name_here:
+                dbg_reach(ctx, level, 'none', '-')
+                return None
+            if not eff_named:
+                ctx.fault = 'dbg:field_name_in_tuple_style'
+            if r.random() < 0.06:
+                kw = pick(r, DBG_PATHKW)
+                i = sp.randrange(3)
+                dbg_reach(ctx, level, 'name=pathkw', ['short', 'name:nv', 'rename:nv'][i])
+                return ['Debug = %s' % kw, 'Debug(name = %s)' % kw, 'Debug(rename = %s)' % kw][i]
+            if sp.random() < 0.35:
+                i = sp.randrange(2)
+                dbg_reach(ctx, level, 'name=custom', ['short', 'short_str'][i])
+                return ['Debug = %s' % fname, 'Debug = "%s"' % fname][i]
+            t, form = dbg_name_forms(sp, fname)
+            dbg_reach(ctx, level, 'name=custom', form)
+            return 'Debug(%s)' % (t + (',' if sp.random() < 0.1 else ''))
+        if c < 0.92:
+            t = sp_path_param(sp, 'method', m)
+            dbg_reach(ctx, level, 'method', 'list' if t.startswith('method(') else 'nv')
+            return 'Debug(%s)' % t
+        # combinations
+        params = [sp_path_param(sp, 'method', m)]
+        what = 'method'
+        if name_here and r.random() < 0.6:
+            if not eff_named:
+                ctx.fault = 'dbg:field_name_in_tuple_style'
+            params.append(dbg_name_forms(sp, fname)[0]); what += '+name'
+        if r.random() < 0.5:
+            params.append(sp_bool_param(sp, 'ignore', igb)); what += '+ignore=%s' % igb
+        dbg_reach(ctx, level, what, 'list')
+        return 'Debug(%s)' % join_params(sp, params)
+
+    def post(self, ctx, inp):
+        """attributes the per-item scanners must skip: non-educe attributes and `educe` attributes
+        that are not lists (`#[educe]`, `#[educe = 1]`), on variants and fields"""
+        r, sp = ctx.rng, ctx.sp
+        if r.random() > 0.12:
+            return
+        items = list(inp.fields)
+        for v in inp.variants:
+            items.append(v)
+            items += v.fields
+        if not items:
+            return
+        it = pick(r, items)
+        a = pick(r, [Attr('educe', 'path'), Attr('educe', 'nv', '1'), Attr('educe', 'nv', '"Debug"'),
+                     Attr('doc', 'nv', '" d"'), Attr('serde', 'list', 'skip'), Attr('educe::x', 'list', 'Debug'),
+                     Attr('educe', 'list', ''), Attr('educe', 'list', ',') if False else Attr('educe', 'list', ' ')])
+        dbg_reach(ctx, 'item_attr', a.rust(), '-')
+        it.attrs.insert(sp.randrange(len(it.attrs) + 1), a)
+
+GENS = {'PartialEq': G_PartialEq(), 'Eq': G_Eq(), 'Hash': G_Hash()}
+GENS['Clone'] = G_Clone()
+GENS['Copy'] = G_Copy()
+GENS['Debug'] = G_Debug()
 
 # ---------------------------------------------------------------- attribute assembly
 OTHER_ATTRS = [Attr('doc', 'nv', '" some docs"'), Attr('allow', 'list', 'dead_code'),
@@ -501,6 +809,7 @@ def gen_case(seed, spseed, modelled, want_fault=False, kinds=('struct', 'enum', 
         if t in GENS:
             GENS[t].post(ctx, inp)
     inp.fault = ctx.fault
+    inp.notes = ctx.notes
     inp.traits = traits
     inp.notes = ctx.notes
     return inp
